@@ -9,6 +9,7 @@ package ed25519
 
 import (
 	"github.com/cloudflare/pat-go/ed25519/internal/edwards25519"
+	"github.com/cloudflare/pat-go/ed25519/internal/edwards25519/field"
 )
 
 // VerifScalarReduce64 returns SetUniformBytes(x) for a 64-byte x.
@@ -102,4 +103,78 @@ func VerifPointOps(p, q []byte) (add, sub, neg []byte, err error) {
 	sub = (&edwards25519.Point{}).Subtract(P, Q).Bytes()
 	neg = (&edwards25519.Point{}).Negate(P).Bytes()
 	return
+}
+
+func verifField(x []byte) *field.Element {
+	return new(field.Element).SetBytes(x)
+}
+
+// VerifFieldOps applies the field operations to SetBytes(a), SetBytes(b) and returns the canonical encodings of
+// a+b, a-b, -a, a*b, a^2, 1/a, |a|, a^((p-5)/8), and IsNegative(a), Equal(a, b).
+func VerifFieldOps(a, b []byte) (add, sub, neg, mul, sq, inv, abs, p22523 []byte, isNeg, eq int) {
+	x, y := verifField(a), verifField(b)
+	add = new(field.Element).Add(x, y).Bytes()
+	sub = new(field.Element).Subtract(x, y).Bytes()
+	neg = new(field.Element).Negate(x).Bytes()
+	mul = new(field.Element).Multiply(x, y).Bytes()
+	sq = new(field.Element).Square(x).Bytes()
+	inv = new(field.Element).Invert(x).Bytes()
+	abs = new(field.Element).Absolute(x).Bytes()
+	p22523 = new(field.Element).Pow22523(x).Bytes()
+	return add, sub, neg, mul, sq, inv, abs, p22523, x.IsNegative(), x.Equal(y)
+}
+
+// VerifFieldChain evaluates expressions whose intermediate values are NOT brought to canonical form in between:
+// (a+b)*(a-b), ((a+a)+(b+b))^2, (a-b)*(a-b)-(b-a)^2, ((a*b)+a)*b-(a-b), 16a via repeated doubling times b,
+// (-a)*(-b), and a*b with the destination aliasing each operand.
+func VerifFieldChain(a, b []byte) [][]byte {
+	x, y := verifField(a), verifField(b)
+	var out [][]byte
+	s, d := new(field.Element).Add(x, y), new(field.Element).Subtract(x, y)
+	out = append(out, new(field.Element).Multiply(s, d).Bytes())
+	t := new(field.Element).Add(new(field.Element).Add(x, x), new(field.Element).Add(y, y))
+	out = append(out, new(field.Element).Square(t).Bytes())
+	e := new(field.Element).Subtract(y, x)
+	u := new(field.Element).Subtract(new(field.Element).Multiply(d, d), new(field.Element).Square(e))
+	out = append(out, u.Bytes())
+	w := new(field.Element).Multiply(x, y)
+	w.Add(w, x)
+	w.Multiply(w, y)
+	w.Subtract(w, d)
+	out = append(out, w.Bytes())
+	z := new(field.Element).Set(x)
+	for i := 0; i < 4; i++ {
+		z.Add(z, z)
+	}
+	out = append(out, new(field.Element).Multiply(z, y).Bytes())
+	out = append(out, new(field.Element).Multiply(new(field.Element).Negate(x), new(field.Element).Negate(y)).Bytes())
+	a1 := new(field.Element).Set(x)
+	a1.Multiply(a1, y)
+	out = append(out, a1.Bytes())
+	a2 := new(field.Element).Set(y)
+	a2.Multiply(x, a2)
+	out = append(out, a2.Bytes())
+	a3 := new(field.Element).Set(x)
+	a3.Square(a3)
+	out = append(out, a3.Bytes())
+	return out
+}
+
+// VerifFieldSqrtRatio returns SqrtRatio(u, v).
+func VerifFieldSqrtRatio(u, v []byte) ([]byte, int) {
+	r, was := new(field.Element).SqrtRatio(verifField(u), verifField(v))
+	return r.Bytes(), was
+}
+
+// VerifFieldMult32 returns a*y.
+func VerifFieldMult32(a []byte, y uint32) []byte {
+	return new(field.Element).Mult32(verifField(a), y).Bytes()
+}
+
+// VerifFieldSelectSwap returns Select(a, b, cond) and the pair after Swap(cond).
+func VerifFieldSelectSwap(a, b []byte, cond int) (sel, sa, sb []byte) {
+	x, y := verifField(a), verifField(b)
+	sel = new(field.Element).Select(x, y, cond).Bytes()
+	x.Swap(y, cond)
+	return sel, x.Bytes(), y.Bytes()
 }
